@@ -457,6 +457,7 @@ def run(tier, seed):
         for rs, labels in variants:
             cases.append((w, rs, data, labels))
     cases += merged_family(seed, scale(tier, 60))
+    cases += writer_alias_family()
     # ---- encode with the implementation, resolve on all three sides
     reqs, meta = [], []
     for ci, (w, rs, data, labels) in enumerate(cases):
@@ -527,6 +528,7 @@ def run(tier, seed):
                 or ("err" in ir and (ir["err"] == "resolution") != (mo.get("err") == "resolution")):
             case["impl"], case["model"] = ir, mo
             run.fail(case, "correspondence: resolution differs between implementation and model", kind="correspondence")
+    unknown_logical_family(run)
     # ---- reader-only fields whose default is not its own Python datum (bytes / fixed / nested record)
     for wtype, dflt, expect in [("bytes", "\u00ff", {"b": "ff"}), ({"type": "fixed", "name": "Fx", "size": 1}, "\u00ff", {"b": "ff"}),
                                 ({"type": "record", "name": "In", "fields": [{"name": "x", "type": "int", "default": 3}]}, {},
@@ -575,6 +577,70 @@ def run(tier, seed):
                       "schemaless": [exp, experr], "tags": list(labels) + ["container"]},
                      "container reader and schemaless reader resolve differently", kind="oracle")
     return run.finish()
+
+
+def writer_alias_family():
+    """aliases belong to the READER's side of resolution: a writer type's own aliases say nothing about which reader type
+    it matches.  Writer types that carry aliases (a later version that kept its former name) against reader types named
+    like one of those aliases — no match by the rules — alone, in a field, and as one branch of a reader union"""
+    out = []
+    kinds = {
+        "record": (lambda n, al: {"type": "record", "name": n, **({"aliases": al} if al else {}), "fields": [{"name": "v", "type": "double"}, {"name": "unit", "type": "string"}]},
+                   {"v": 21.0, "unit": "C"}),
+        "enum": (lambda n, al: {"type": "enum", "name": n, **({"aliases": al} if al else {}), "symbols": ["A", "B"]}, "B"),
+        "fixed": (lambda n, al: {"type": "fixed", "name": n, **({"aliases": al} if al else {}), "size": 2}, b"xy"),
+    }
+    for kind, (mk, val) in kinds.items():
+        w = mk("ns.ReadingV2", ["ns.Reading", "Old"])
+        for rname, ral in (("ns.Reading", None), ("ns.Other", ["ns.Reading"]), ("ns.Old", None), ("ns.ReadingV2", None), ("ns.New", ["ns.ReadingV2"])):
+            r = mk(rname, ral)
+            out.append((w, r, [val], ["directed:writer-alias", kind, "top"]))
+            wf = {"type": "record", "name": "Env", "fields": [{"name": "entry", "type": w}, {"name": "n", "type": "int"}]}
+            none_rec = {"type": "record", "name": "ns.NoneYet", "fields": [{"name": "label", "type": "string", "default": "none"}]}
+            rf = {"type": "record", "name": "Env", "fields": [{"name": "entry", "type": [none_rec, r]}, {"name": "n", "type": "int"}]}
+            out.append((wf, rf, [{"entry": val, "n": 3}], ["directed:writer-alias", kind, "reader-union"]))
+            rf2 = {"type": "record", "name": "Env", "fields": [{"name": "entry", "type": [r, none_rec]}, {"name": "n", "type": "int"}]}
+            out.append((wf, rf2, [{"entry": val, "n": 3}], ["directed:writer-alias", kind, "reader-union-first"]))
+    return out
+
+
+def unknown_logical_family(run):
+    """a logicalType the library has no conversion for (home-made, from a newer specification, or a known one on the wrong
+    underlying type) is ignored: resolution gives exactly what it gives for the bare underlying type — also when the reader
+    promotes at that position.  Compared type-strictly (5 and 5.0 are different results)."""
+    marks = [{"logicalType": "customer-id"}, {"logicalType": "timestamp-nanos"}, {"logicalType": "json"}]
+    promos = [("int", 5, ["long", "float", "double"]), ("long", 2 ** 40, ["float", "double"]), ("float", 1.5, ["double"]),
+              ("string", "x", ["bytes"]), ("bytes", b"y", ["string"]), ("int", 7, ["int"])]
+    wrong_base = [({"type": "int", "logicalType": "timestamp-millis"}, "int", 9), ({"type": "string", "logicalType": "decimal", "precision": 4, "scale": 2}, "string", "12")]
+    shapes = {
+        "top": (lambda t: t, lambda v: v),
+        "field": (lambda t: {"type": "record", "name": "R", "fields": [{"name": "a", "type": t}, {"name": "z", "type": "int"}]}, lambda v: {"a": v, "z": 1}),
+        "array": (lambda t: {"type": "array", "items": t}, lambda v: [v, v]),
+        "map": (lambda t: {"type": "map", "values": t}, lambda v: {"k": v}),
+        "union": (lambda t: ["null", t], lambda v: v),
+    }
+    todo = []
+    for base, val, targets in promos:
+        for mark in marks:
+            for tgt in targets:
+                todo.append((dict({"type": base}, **mark), base, val, tgt))
+    for wt, base, val in wrong_base:
+        for tgt in {"int": ["long", "double"], "string": ["bytes"]}[base]:
+            todo.append((wt, base, val, tgt))
+    for wt, base, val, tgt in todo:
+        for sname, (wrap, wrapv) in shapes.items():
+            w_marked, w_plain, rs = wrap(wt), wrap(base), wrap(tgt)
+            case = {"writer": w_marked, "reader": rs, "value": to_wire(wrapv(val)), "tags": ["unknown-logical-type", "shape:" + sname, "%s->%s" % (base, tgt)]}
+            run.count(case, True, ["unknown-logical-type:" + sname])
+            try:
+                b = _enc(w_plain, wrapv(val))
+            except Exception:
+                continue
+            a, bref = impl_resolve(w_marked, rs, b), impl_resolve(w_plain, rs, b)
+            if ("ok" in a) != ("ok" in bref) or ("ok" in a and canon(a["ok"]) != canon(bref["ok"])):
+                case["impl"], case["with_bare_type"] = a, bref
+                run.fail(case, "a writer type annotated with a logicalType that has no conversion resolves differently from the bare type "
+                               "(the annotation must be ignored)", kind="oracle")
 
 
 def merged_family(seed, n):
